@@ -67,10 +67,11 @@ Record iobs := mkIObs {
   io_hb_te : Z;            (* its end (answer looked at, or the loop's time-out); -1 while it is in flight *)
   io_hb_op : Z;            (* the call of that attempt *)
   io_cancelled : bool;     (* the context passed to Start has been cancelled and no Start was accepted since *)
-  io_stop_t : Z            (* time of the call that began the shutdown in progress *)
+  io_stop_t : Z;           (* time of the call that began the shutdown in progress *)
+  io_hb_ok : bool          (* no refresh attempt of the running term is in flight, and the latest one (if any) was answered with success in time *)
 }.
-#[export] Instance eta_iobs : Settable _ := settable! mkIObs <io_flag; io_tok; io_acq_rev; io_state; io_started; io_stopping; io_stopped; io_terms; io_views; io_false_cause; io_promotes; io_demotes; io_ended; io_hb_ta; io_hb_te; io_hb_op; io_cancelled; io_stop_t>.
-Definition iobs0 := mkIObs false 0 0 stInit false false false 0 [] 0 0 0 0 0 0 0 false 0.
+#[export] Instance eta_iobs : Settable _ := settable! mkIObs <io_flag; io_tok; io_acq_rev; io_state; io_started; io_stopping; io_stopped; io_terms; io_views; io_false_cause; io_promotes; io_demotes; io_ended; io_hb_ta; io_hb_te; io_hb_op; io_cancelled; io_stop_t; io_hb_ok>.
+Definition iobs0 := mkIObs false 0 0 stInit false false false 0 [] 0 0 0 0 0 0 0 false 0 true.
 
 Record base := mkBase {
   b_now : Z;
@@ -139,7 +140,7 @@ Definition bapply (b0 : base) (te : Z * ev) : base :=
   | EIssue i op kind inner root gid key val exp =>
       let b1 := b <| b_pend ::= fun m => aset m op (mkPend i kind inner root gid key val exp t None) |> in
       if (kind =? kUpdate) && (inner =? sHeartbeat) && io_flag (inst_of b i) && (v_stok (vinfo_of b val) =? io_tok (inst_of b i))
-      then upd_inst b1 i (fun x => x <| io_hb_ta := t |> <| io_hb_te := -1 |> <| io_hb_op := op |>)
+      then upd_inst b1 i (fun x => x <| io_hb_ta := t |> <| io_hb_te := -1 |> <| io_hb_op := op |> <| io_hb_ok := false |>)
       else b1
   | EApply op okind rev val =>
       match aget (b_pend b) op with
@@ -168,7 +169,7 @@ Definition bapply (b0 : base) (te : Z * ev) : base :=
             if (p_kind p =? kUpdate) && (p_inner p =? sHeartbeat) && (rk =? oOk)
                && io_flag (inst_of b2 i) && (v_stok (vinfo_of b2 (p_val p)) =? io_tok (inst_of b2 i))
                && (t - p_t p <? hb_update_timeout (ic_H (cfg_of b2 i))) then
-              upd_inst b2 i (fun x => x <| io_views ::= cons (io_tok x, rev) |>)
+              upd_inst b2 i (fun x => x <| io_views ::= cons (io_tok x, rev) |> <| io_hb_ok := true |>)
             else b2
           else b1
       end
@@ -179,7 +180,7 @@ Definition bapply (b0 : base) (te : Z * ev) : base :=
             let tok := v_stok (vinfo_of b (lr_val r)) in
             upd_inst b i (fun x => x <| io_flag := true |> <| io_tok := tok |> <| io_acq_rev := lr_rev r |>
                                      <| io_terms ::= Z.succ |> <| io_views ::= cons (tok, lr_rev r) |>
-                                     <| io_hb_ta := t |> <| io_hb_te := t |> <| io_hb_op := 0 |>)
+                                     <| io_hb_ta := t |> <| io_hb_te := t |> <| io_hb_op := 0 |> <| io_hb_ok := true |>)
         | None => upd_inst b i (fun x => x <| io_flag := true |> <| io_tok := 0 |> <| io_acq_rev := 0 |> <| io_terms ::= Z.succ |>)
         end
       else upd_inst b i (fun x => x <| io_flag := false |> <| io_false_cause := cause |> <| io_ended := (if io_flag x then io_ended x + 1 else io_ended x) |>)
